@@ -141,6 +141,7 @@ func scenarios(th bool) []scenario {
 	big := 40000
 	if th {
 		big = 70000
+		sizes = []int{0, 1, 2, 3, 40, 175, 4095, 4096, 4097, 32768, 65536}
 	}
 	for _, st := range []string{"S0-empty", "S1-other-entries", "S2-overwrite-different-length", "S2-overwrite-same-length", "S2-same-content-again", "S5-index-present-output-trimmed"} {
 		for _, sz := range append(sizes, big) {
@@ -558,7 +559,15 @@ func main() {
 			report(s, fault{Kind: "fail", K: k, K2: -1}, v, res)
 			if base.Ops[k] == "write" || base.Ops[k] == "writeat" {
 				// 3/67/68/132/133/.../174 are the field boundaries of an index entry
-				for _, j := range []int{1, 2, 37, s.Size - 2, s.Size / 2, 90, 3, 67, 68, 132, 133, 140, 151, 152, 153, 154, 173, 174} {
+				lens := []int{1, 2, 37, s.Size - 2, s.Size / 2, 90, 3, 67, 68, 132, 133, 140, 151, 152, 153, 154, 173, 174}
+				if r.Thorough() && s.Size == 40 {
+					// every length an index entry (175 bytes) can be cut at
+					lens = nil
+					for j := 1; j < 176; j++ {
+						lens = append(lens, j)
+					}
+				}
+				for _, j := range lens {
 					if j <= 0 {
 						continue
 					}
